@@ -6,6 +6,8 @@
 //!             (`verif_gate::Gate::check`), `parse_command`, `dispatch_command`.
 //!   bypass    the same generator under `auth.bypass_auth = true`.
 //!   expiry    token lifetime 2 s, real waiting (cases run concurrently).
+//!   ratelimit `auth.rate_limit_enabled = true`, 1 failed attempt / s / IP: same decisions.
+//!   witness   eight scripted scenarios: one minimal witness per finding class + controls.
 //!
 //! Model input line:  `scn <bypass> <manager> <expiry> <schemas> ; step ; step …`, steps
 //!   mk id key roles | sp id et rw | dp id et | rk id | conn k | req k line parsed | tick d |
@@ -222,6 +224,12 @@ struct Sess<'a> {
     toks: Vec<Two>,
     gates: HashMap<u64, Gate>,
     co: CaseOut,
+    /// wall clock (s) at the start of the scenario; the model's clock follows the real one
+    base_s: u64,
+}
+
+fn wall() -> std::time::Duration {
+    std::time::SystemTime::now().duration_since(std::time::UNIX_EPOCH).unwrap()
 }
 
 impl<'a> Sess<'a> {
@@ -234,6 +242,23 @@ impl<'a> Sess<'a> {
             schemas0: hexlist(&types), types,
             names: vec![], name_types: HashMap::new(), accounts: vec![], toks: vec![], gates: HashMap::new(),
             co: CaseOut::default(),
+            base_s: wall().as_secs(),
+        }
+    }
+    /// Brings the scenario clock (model + oracle) up to the real clock, which is what
+    /// `generate_session_token` / `validate_session_token` read. Stays clear of second
+    /// boundaries so that the gate call that follows reads the same second.
+    async fn sync_clock(&mut self) {
+        let frac = wall().subsec_millis();
+        if frac > 900 {
+            tokio::time::sleep(std::time::Duration::from_millis((1010 - frac) as u64)).await;
+        }
+        let now_s = wall().as_secs() - self.base_s;
+        if now_s > self.truth.now {
+            let d = now_s - self.truth.now;
+            self.truth.now = now_s;
+            self.ops.push(format!("tick {d}"));
+            self.imp.push(".".into());
         }
     }
     fn key_of(&self, id: &str) -> String {
@@ -281,11 +306,9 @@ impl<'a> Sess<'a> {
         self.ops.push("restart".into());
         self.imp.push(".".into());
     }
-    async fn tick(&mut self, d: u64) {
-        tokio::time::sleep(std::time::Duration::from_millis(d * 1000 + 150)).await;
-        self.truth.now += d;
-        self.ops.push(format!("tick {d}"));
-        self.imp.push(".".into());
+    /// Real waiting; the next request's `sync_clock` turns it into a `tick` of the model.
+    async fn wait_ms(&mut self, ms: u64) {
+        tokio::time::sleep(std::time::Duration::from_millis(ms)).await;
     }
     fn open_conn(&mut self, k: u64) {
         if !self.gates.contains_key(&k) {
@@ -315,6 +338,7 @@ impl<'a> Sess<'a> {
     /// One request line on connection `k`: real gate, parser, dispatcher; transcript; oracle.
     async fn request(&mut self, k: u64, line: &Two) {
         self.open_conn(k);
+        self.sync_clock().await;
         let bound = self.bound(k);
         let g = self.gates.get_mut(&k).unwrap();
         let base = line.real.as_ptr() as usize;
@@ -453,10 +477,13 @@ async fn run_case(w: &World, seed: u64, stream: &str, i: u64, am0: Arc<AuthManag
         let roles: Vec<String> = if n == 0 { vec!["admin".into()] } else { r.pick(scen::ROLE_SETS).iter().map(|s| s.to_string()).collect() };
         s.mk(id, &key, &roles).await;
     }
+    // the account and type that grants / revokes / requests concentrate on
+    let focus_user: Option<String> = s.accounts.iter().skip(1).map(|a| a.id.clone()).next();
+    let focus_type: String = r.pick(&["ev_a", "ev_b"]).to_string();
     // ---- some per-type permission sets through the API
-    for _ in 0..r.below(5) {
-        let a = r.pick(&s.accounts).clone();
-        let et = r.pick(&["ev_a", "ev_b", "ev_x"]).to_string();
+    for _ in 0..(1 + r.below(6)) {
+        let a = if let (Some(f), true) = (&focus_user, r.chance(1, 2)) { s.accounts.iter().find(|a| a.id == *f).unwrap().clone() } else { r.pick(&s.accounts).clone() };
+        let et = if r.chance(1, 2) { focus_type.clone() } else { r.pick(&["ev_a", "ev_b", "ev_x"]).to_string() };
         let (rd, wr) = (r.chance(1, 2), r.chance(1, 2));
         s.set_perm(&a.id, &et, rd, wr).await;
     }
@@ -466,16 +493,16 @@ async fn run_case(w: &World, seed: u64, stream: &str, i: u64, am0: Arc<AuthManag
         let choice = r.below(100);
         if choice < 6 {
             // API-level change between requests
-            let a = r.pick(&s.accounts).clone();
+            let a = if let (Some(f), true) = (&focus_user, r.chance(1, 2)) { s.accounts.iter().find(|a| a.id == *f).unwrap().clone() } else { r.pick(&s.accounts).clone() };
             match r.below(4) {
                 0 => { s.rev_key(&a.id).await; s.co.tallies.push("api=revoke_key".into()); }
                 1 => {
-                    let et = r.pick(&s.types).clone();
+                    let et = if r.chance(1, 2) { focus_type.clone() } else { r.pick(&s.types).clone() };
                     s.drop_perm(&a.id, &et).await;
                     s.co.tallies.push("api=revoke_permission".into());
                 }
                 _ => {
-                    let et = r.pick(&s.types).clone();
+                    let et = if r.chance(1, 2) { focus_type.clone() } else { r.pick(&s.types).clone() };
                     let (rd, wr) = (r.chance(1, 2), r.chance(1, 2));
                     s.set_perm(&a.id, &et, rd, wr).await;
                     s.co.tallies.push("api=grant_permission".into());
@@ -488,9 +515,11 @@ async fn run_case(w: &World, seed: u64, stream: &str, i: u64, am0: Arc<AuthManag
             s.co.tallies.push("restart".into());
             continue;
         }
-        if choice < 12 && o.ticks {
-            s.tick(o.expiry + 1).await;
-            s.co.tallies.push("tick".into());
+        if choice < 14 && o.ticks {
+            // token lifetime is 2 s: waits below, around and above it
+            let ms = *r.pick(&[300u64, 700, 1000, 1400, 2000, 2300, 3100]);
+            s.wait_ms(ms).await;
+            s.co.tallies.push("wait".into());
             continue;
         }
         // ---- a command text
@@ -526,6 +555,8 @@ async fn run_case(w: &World, seed: u64, stream: &str, i: u64, am0: Arc<AuthManag
                 fresh_name: format!("m{tag}n{fresh}"),
                 fresh_user: format!("nu{fresh}"),
                 creds: &creds,
+                focus_user: focus_user.clone(),
+                focus_type: focus_type.clone(),
             };
             scen::gen_command(&mut r, &ctx)
         };
@@ -553,7 +584,14 @@ async fn run_case(w: &World, seed: u64, stream: &str, i: u64, am0: Arc<AuthManag
         let k = r.below(3);
         s.open_conn(k);
         let bound = s.bound(k);
-        let acct = r.pick(&s.accounts).clone();
+        let is_mgmt = matches!(label, "CREATE USER" | "REVOKE KEY" | "LIST USERS" | "GRANT" | "REVOKE" | "SHOW PERMISSIONS" | "DEFINE");
+        let acct = if is_mgmt && r.chance(3, 5) {
+            s.accounts[0].clone() // root: management commands that actually go through
+        } else if let (Some(f), true) = (&focus_user, r.chance(2, 5)) {
+            s.accounts.iter().find(|a| a.id == *f).unwrap().clone()
+        } else {
+            r.pick(&s.accounts).clone()
+        };
         let other = r.pick(&s.accounts).clone();
         let form = r.below(100);
         let mut line = Two::default();
@@ -571,6 +609,13 @@ async fn run_case(w: &World, seed: u64, stream: &str, i: u64, am0: Arc<AuthManag
             } else {
                 line.push(&format!("{uid}:"));
                 line.push2(&sg);
+            }
+            if !s.toks.is_empty() && r.chance(1, 10) {
+                // AUTH line that also ends in a live token: the AUTH branch comes first
+                let t = r.pick(&s.toks).clone();
+                line.push(" TOKEN ");
+                line.push2(&t);
+                s.co.tallies.push("auth+token".into());
             }
         } else if form < 34 && !s.toks.is_empty() {
             form_label = "TOKEN";
@@ -602,7 +647,8 @@ async fn run_case(w: &World, seed: u64, stream: &str, i: u64, am0: Arc<AuthManag
             s.co.tallies.push(format!("token={tl}"));
             if tv >= 9 || tv == 6 || tv == 7 {
                 let tt = &s.truth.tokens[ti];
-                let state = if !tt.alive { "dead(revoked/restart)" } else if s.truth.now > tt.minted_at + o.expiry { "expired" } else { "live" };
+                let age = (wall().as_secs() - s.base_s).saturating_sub(tt.minted_at);
+                let state = if !tt.alive { "dead(revoked/restart)".to_string() } else if age > o.expiry { "expired".to_string() } else { format!("live(age {age}s)") };
                 s.co.tallies.push(format!("well-formed-token={state}"));
             }
         } else if form < 60 && bound.is_some() {
@@ -699,12 +745,45 @@ async fn run_witness(w: &World, i: u64, am0: Arc<AuthManager>) -> CaseOut {
             let l = { let mut l = Two::lit("PING TOKEN "); l.push2(&t); l }; s.request(2, &l).await;
             req!("eve", "PING");
         }
+        8 => {
+            // GRANT merges, REVOKE removes what it names, a failing GRANT keeps its earlier types
+            let st = "STORE ev_a FOR c1 PAYLOAD {\"k\":7,\"s\":\"x\"}";
+            req!("root", "GRANT READ ON ev_a TO eve");
+            req!("root", "GRANT WRITE ON ev_a TO eve");
+            req!("eve", "QUERY ev_a"); req!("eve", st);
+            req!("root", "REVOKE WRITE ON ev_a FROM eve");
+            req!("eve", "QUERY ev_a"); req!("eve", st);
+            req!("root", "REVOKE READ ON ev_a FROM eve");
+            req!("eve", "QUERY ev_a"); req!("eve", st);
+            req!("root", "GRANT READ, WRITE ON ev_b, ev_x TO eve");
+            req!("eve", "QUERY ev_b"); req!("eve", "QUERY ev_x");
+            req!("root", "GRANT READ ON ev_a TO nobody");
+            req!("root", "REVOKE READ ON ev_a FROM nobody");
+            req!("root", "SHOW PERMISSIONS FOR eve");
+            req!("eve", "SHOW PERMISSIONS FOR eve");
+            req!("eve", "LIST USERS");
+        }
+        9 => {
+            // roles against explicit permission sets
+            let st = "STORE ev_a FOR c1 PAYLOAD {\"k\":7,\"s\":\"x\"}";
+            for (id, role) in [("ed", "editor"), ("vw", "viewer"), ("ro", "read-only"), ("wo", "write-only"), ("ad", "admin"), ("xx", "auditor")] {
+                s.mk(id, "k", &[role.to_string()]).await;
+            }
+            for id in ["ed", "vw", "ro", "wo", "ad", "xx"] { req!(id, "QUERY ev_a"); req!(id, st); req!(id, "LIST USERS"); }
+            // explicit sets override roles for write, and for read only when all-false
+            for id in ["ed", "vw", "wo", "ad"] { s.set_perm(id, "ev_a", false, false).await; req!(id, "QUERY ev_a"); req!(id, st); }
+            for id in ["ed", "vw", "wo"] { s.set_perm(id, "ev_a", false, true).await; req!(id, "QUERY ev_a"); req!(id, st); }
+            for id in ["ed", "vw", "wo"] { s.set_perm(id, "ev_a", true, false).await; req!(id, "QUERY ev_a"); req!(id, st); }
+            for id in ["ed", "vw", "wo"] { s.drop_perm(id, "ev_a").await; req!(id, "QUERY ev_a"); req!(id, st); }
+            req!("root", "REVOKE READ ON ev_b FROM ed");
+            req!("ed", "QUERY ev_b"); req!("ed", "STORE ev_b FOR c1 PAYLOAD {\"k\":7,\"s\":\"x\"}");
+        }
         _ => {}
     }
     s.co.tallies.push(format!("witness={i}"));
     s.finish(300)
 }
-const WITNESSES: u64 = 8;
+const WITNESSES: u64 = 10;
 
 /// The model sees the toy rendering of the line; the command the real gate returned is a
 /// sub-slice of the real line at some byte offset — the same offsets in the toy line.
@@ -777,21 +856,85 @@ fn judge(truth: &Truth, user: &str, p: &Parsed, a: &Answer, name_types: &HashMap
     }
 }
 
+/// Long runs are split over child processes (one engine each, a few at a time): a single
+/// engine slows down as stored events, segments and schemas pile up, and the cases are
+/// independent of each other anyway. The children's files are concatenated in case order.
+const CHUNK: u64 = 500;
+fn run_chunked(a: &snel_harness::out::Args) -> ! {
+    use std::io::Write;
+    let exe = std::env::current_exe().unwrap();
+    std::fs::create_dir_all(&a.out).unwrap();
+    let chunks: Vec<(u64, u64)> = (0..a.cases.div_ceil(CHUNK)).map(|k| (k * CHUNK, ((k + 1) * CHUNK).min(a.cases))).collect();
+    let par = if a.stream == "expiry" { 3 } else { 6 };
+    let mut results: Vec<Option<std::process::ExitStatus>> = vec![None; chunks.len()];
+    for wave in (0..chunks.len()).collect::<Vec<_>>().chunks(par) {
+        let kids: Vec<_> = wave.iter().map(|&k| {
+            let (lo, hi) = chunks[k];
+            (k, std::process::Command::new(&exe)
+                .arg(&a.stream).arg("--seed").arg(a.seed.to_string()).arg("--cases").arg(a.cases.to_string())
+                .arg("--out").arg(a.out.join(format!("chunk{k}"))).arg("--range").arg(lo.to_string()).arg(hi.to_string())
+                .spawn().expect("spawn chunk"))
+        }).collect();
+        for (k, mut c) in kids {
+            results[k] = Some(c.wait().expect("wait chunk"));
+        }
+    }
+    if results.iter().any(|r| !r.is_some_and(|s| s.success())) {
+        eprintln!("c13: a chunk process failed: {results:?}");
+        std::process::exit(2);
+    }
+    let mut stats = serde_json::json!({"stream": a.stream, "evaluations": 0u64, "distinct_nontrivial": 0u64, "oracle_checks": 0u64,
+        "oracle_failures": 0u64, "distribution": {}, "samples": []});
+    for ext in ["ops", "impl", "oracle"] {
+        let mut out = std::fs::File::create(a.out.join(format!("{}.{ext}", a.stream))).unwrap();
+        for k in 0..chunks.len() {
+            out.write_all(&std::fs::read(a.out.join(format!("chunk{k}")).join(format!("{}.{ext}", a.stream))).unwrap()).unwrap();
+        }
+    }
+    for k in 0..chunks.len() {
+        let d = a.out.join(format!("chunk{k}"));
+        let st: serde_json::Value = serde_json::from_slice(&std::fs::read(d.join(format!("{}.stats.json", a.stream))).unwrap()).unwrap();
+        for key in ["evaluations", "distinct_nontrivial", "oracle_checks", "oracle_failures"] {
+            stats[key] = (stats[key].as_u64().unwrap() + st[key].as_u64().unwrap_or(0)).into();
+        }
+        for (kk, v) in st["distribution"].as_object().unwrap() {
+            let cur = stats["distribution"][kk].as_u64().unwrap_or(0);
+            stats["distribution"][kk] = (cur + v.as_u64().unwrap_or(0)).into();
+        }
+        if k == 0 {
+            stats["samples"] = st["samples"].clone();
+        }
+        let _ = std::fs::remove_dir_all(d);
+    }
+    std::fs::write(a.out.join(format!("{}.stats.json", a.stream)), serde_json::to_string_pretty(&stats).unwrap()).unwrap();
+    std::process::exit(0);
+}
+
 fn main() {
     let a = parse_args();
     crypto::self_test();
+    let range: Option<(u64, u64)> = match a.extra.as_slice() {
+        [f, lo, hi] if f == "--range" => Some((lo.parse().unwrap(), hi.parse().unwrap())),
+        [] => None,
+        other => { eprintln!("unknown arguments {other:?}"); std::process::exit(2); }
+    };
+    if range.is_none() && a.only.is_none() && a.cases > CHUNK && a.stream != "witness" {
+        run_chunked(&a);
+    }
     assert_eq!(scen::toy_mac("k", "m").len(), 64);
     let (bypass, expiry) = match a.stream.as_str() {
         "scenario" => (false, 300),
         "bypass" => (true, 300),
         "expiry" => (false, 2),
         "witness" => (false, 300),
+        // per-IP rate limiting of failed attempts switched on (1/s): the decision must not change
+        "ratelimit" => (false, 300),
         other => {
             eprintln!("unknown stream {other}");
             std::process::exit(2);
         }
     };
-    let root = world::write_config(&a.out, &a.stream, bypass, expiry);
+    let root = world::write_config(&a.out, &a.stream, bypass, expiry, a.stream == "ratelimit");
     let rt = tokio::runtime::Builder::new_multi_thread().worker_threads(8).enable_all().build().unwrap();
     let stream_name = a.stream.clone();
     rt.block_on(async move {
@@ -809,7 +952,8 @@ fn main() {
             ticks: stream_name == "expiry",
         });
         let ncases = if stream_name == "witness" { WITNESSES } else { a.cases };
-        let todo: Vec<u64> = (0..ncases).filter(|i| a.only.is_none_or(|o| o == *i)).collect();
+        let (lo, hi) = range.unwrap_or((0, ncases));
+        let todo: Vec<u64> = (lo..hi.min(ncases)).filter(|i| a.only.is_none_or(|o| o == *i)).collect();
         let chunk = if stream_name == "expiry" { 48 } else { 1 };
         for group in todo.chunks(chunk) {
             // AuthManagers are created one after the other (their WAL dir comes from an env var)
